@@ -392,6 +392,78 @@ def rule_v4(chk, w, consts):
             chk.fail("SIGHASH4", "dispatch/" + ver, "a %s transaction is hashed by %s" % (ver, called), sh[0].span.loc())
 
 
+def rule_sig_result(chk, w, consts):
+    """Which digest the transparent part of a v5 / v6 signature hash IS (ZIP 244 S.2): with no
+    transparent bundle the empty-bundle digest; for a coinbase or a bundle without inputs the TXID
+    digest of the bundle (so a shielded signature still commits to the transparent outputs); otherwise
+    the per-input signature digest state. The function's result alternatives and the tests that select
+    them are evaluated over (bundle present, coinbase, no inputs)."""
+    import itertools
+    fs = w.by_p.get(T + "sighash_v5::transparent_sig_digest", [])
+    if len(fs) != 1:
+        chk.fail("SIGHASH", "result/missing", "transparent_sig_digest not found")
+        return
+    m = commit.Maps(w, fs[0], None, V)
+    res = m.result()
+    mm = re.match(r"select\{(.*)\}$", res)
+    if not mm:
+        chk.fail("SIGHASH", "result/shape", "transparent_sig_digest returns %s" % res[:200], fs[0].span.loc())
+        return
+    alts = []
+    for part in mm.group(1).split("; "):
+        g, _, val = part.rpartition(" => ")
+        alts.append(([x for x in g.split(" & ") if x and x != "otherwise"], val))
+
+    def ev(atom, st):
+        neg = atom.startswith("!")
+        a = atom[1:] if neg else atom
+        if re.match(r"^variant\(\(Bundle, TransparentDigests\)\?\)(==1)?$", a):
+            v = st["present"]
+        elif a.endswith(".is_coinbase()"):
+            v = st["coinbase"]
+        elif a.endswith(".vin.is_empty()"):
+            v = st["empty"]
+        else:
+            return None
+        return (not v) if neg else v
+
+    def kind(val):
+        if re.match(r"^None\{\}\.hash_transparent_txid_data\(\)$", val):
+            return "empty-bundle digest"
+        if re.match(r"^Some\{\(Bundle, TransparentDigests\)\?\.0\.1\}\.hash_transparent_txid_data\(\)$", val):
+            return "txid digest of the bundle"
+        if re.match(r"^#h\d+$", val) or val.startswith("#"):
+            return "signature digest state"
+        return "other:" + val[:40]
+    bad = []
+    for present, coinbase, empty in itertools.product((False, True), repeat=3):
+        if not present and (coinbase or empty):
+            continue
+        st = {"present": present, "coinbase": coinbase, "empty": empty}
+        cands = []
+        for gs, val in alts:
+            vals = [ev(a, st) for a in gs]
+            if None in vals:
+                bad.append("a result alternative is selected by `%s`, which this rule does not understand" % gs)
+                cands = None
+                break
+            if all(vals):
+                cands.append((len(gs), kind(val)))
+        if cands is None:
+            break
+        top = max([c[0] for c in cands]) if cands else -1
+        got = sorted({k for n_, k in cands if n_ == top})
+        want = "empty-bundle digest" if not present else ("txid digest of the bundle" if (coinbase or empty)
+                                                         else "signature digest state")
+        if got != [want]:
+            bad.append("bundle present=%s coinbase=%s no-inputs=%s: %s, ZIP 244 prescribes the %s" % (present, coinbase, empty, got, want))
+    if not bad:
+        chk.ok("SIGHASH", "transparent_sig_digest is the empty-bundle digest without a bundle, the bundle's txid digest for "
+               "a coinbase or a bundle without inputs, the per-input signature digest otherwise", sample=True)
+    else:
+        chk.fail("SIGHASH", "transparent_sig_digest/result", "; ".join(bad[:3]), fs[0].span.loc())
+
+
 def parse_select(v):
     """select{g1 & g2 => val; ...} -> {(g1, g2): val}"""
     m = re.match(r"select\{(.*)\}$", v)
@@ -486,7 +558,7 @@ def main(tier):
                    "blake2b_simd; orchard's bundle commitments"]
     chk.rule("MAP", "each hash state commits to the prescribed values in the prescribed order", floor=26)
     chk.rule("ROOT", "part digests reach the matching slots of the root hashes", floor=8)
-    chk.rule("SIGHASH", "transparent signature digest: committed data and flag exclusions", floor=4)
+    chk.rule("SIGHASH", "transparent signature digest: committed data and flag exclusions", floor=5)
     chk.rule("SIGHASH4", "ZIP 143/243 signature hash: committed data, flag exclusions, dispatch", floor=27)
     chk.rule("control", "positive controls", floor=2)
     w = zf.World(extract.facts_dir("all"), ["zcash_primitives", "zcash_transparent"])
@@ -499,6 +571,7 @@ def main(tier):
         compare(chk, "MAP", "%s%s" % (name, ("@" + ver) if ver else ""), got, want, m_)
     got, _m = the_map(w, T + "sighash_v5::transparent_sig_digest", None, consts)
     compare(chk, "SIGHASH", "transparent_sig_digest", got, SIG_SPEC)
+    rule_sig_result(chk, w, consts)
     rule_v4(chk, w, consts)
     # empty-bundle substitutes in the roots
     for fn_, ver in (("txid::to_hash", "V5"), ("txid::to_hash_v6", None)):
